@@ -41,18 +41,26 @@ const lcTwccURI = "http://www.ietf.org/id/draft-holmer-rmcat-transport-wide-cc-e
 const lcInterval = 10 * time.Millisecond
 
 var lcKinds = map[string]func() (interceptor.Factory, error){
-	"rr":  func() (interceptor.Factory, error) { return report.NewReceiverInterceptor(report.ReceiverInterval(lcInterval)) },
-	"sr":  func() (interceptor.Factory, error) { return report.NewSenderInterceptor(report.SenderInterval(lcInterval)) },
-	"pli": func() (interceptor.Factory, error) { return intervalpli.NewReceiverInterceptor(intervalpli.GeneratorInterval(lcInterval)) },
+	"rr": func() (interceptor.Factory, error) {
+		return report.NewReceiverInterceptor(report.ReceiverInterval(lcInterval))
+	},
+	"sr": func() (interceptor.Factory, error) {
+		return report.NewSenderInterceptor(report.SenderInterval(lcInterval))
+	},
+	"pli": func() (interceptor.Factory, error) {
+		return intervalpli.NewReceiverInterceptor(intervalpli.GeneratorInterval(lcInterval))
+	},
 	"nackgen": func() (interceptor.Factory, error) {
 		return nack.NewGeneratorInterceptor(nack.GeneratorInterval(lcInterval), nack.GeneratorSize(64))
 	},
 	"nackresp": func() (interceptor.Factory, error) { return nack.NewResponderInterceptor(nack.ResponderSize(8)) },
 	"twcc":     func() (interceptor.Factory, error) { return twcc.NewSenderInterceptor(twcc.SendInterval(lcInterval)) },
 	"twcchdr":  func() (interceptor.Factory, error) { return twcc.NewHeaderExtensionInterceptor() },
-	"rfc8888":  func() (interceptor.Factory, error) { return rfc8888.NewSenderInterceptor(rfc8888.SendInterval(lcInterval)) },
-	"rtpfb":    func() (interceptor.Factory, error) { return rtpfb.NewInterceptor() },
-	"stats":    func() (interceptor.Factory, error) { return stats.NewInterceptor() },
+	"rfc8888": func() (interceptor.Factory, error) {
+		return rfc8888.NewSenderInterceptor(rfc8888.SendInterval(lcInterval))
+	},
+	"rtpfb": func() (interceptor.Factory, error) { return rtpfb.NewInterceptor() },
+	"stats": func() (interceptor.Factory, error) { return stats.NewInterceptor() },
 	"dumps": func() (interceptor.Factory, error) {
 		return packetdump.NewSenderInterceptor(packetdump.RTPWriter(io.Discard), packetdump.RTCPWriter(io.Discard))
 	},
@@ -121,19 +129,26 @@ func lcMentioned(p rtcp.Packet) []uint32 {
 }
 
 type lcState struct {
-	mu       sync.Mutex
-	ic       interceptor.Interceptor
-	emitted  map[uint32]bool // media SSRCs mentioned by RTCP emissions since the last op
-	rtcpN    int
-	failAt   map[int]bool
-	rtpOut   []string
-	writers  map[uint32]interceptor.RTPWriter
-	readers  map[uint32]interceptor.RTPReader
-	rtcpR    interceptor.RTCPReader
-	rseq     map[uint32]uint16
-	rtcpSeen int
-	blocked  int
-	exact    bool
+	mu         sync.Mutex
+	ic         interceptor.Interceptor
+	emitted    map[uint32]bool // media SSRCs mentioned by RTCP emissions since the last op
+	rtcpN      int
+	failAt     map[int]bool
+	rtpOut     []string
+	writers    map[uint32]interceptor.RTPWriter
+	readers    map[uint32]interceptor.RTPReader
+	rtcpR      interceptor.RTCPReader
+	rseq       map[uint32]uint16
+	rtcpSeen   int
+	blocked    int
+	exact      bool
+	closedAt   bool // set by the harness right after Close returned
+	lateRTP    int  // RTP writes that reached a stream writer after Close returned
+	lastSeq    map[uint32]uint16
+	nackFor    *[2]uint32    // if set, the next RTCP read delivers a NACK for (ssrc, seq)
+	gate       chan struct{} // when non-nil, stream writers block on it (a slow downstream)
+	inGate     int
+	appWriting bool
 }
 
 func (s *lcState) call(o *Out, f func()) {
@@ -197,7 +212,7 @@ func lcRun(t *testing.T, ops []string, o *Out) {
 		}()
 		synctest.Test(t, func(t *testing.T) {
 			s := &lcState{emitted: map[uint32]bool{}, failAt: map[int]bool{}, writers: map[uint32]interceptor.RTPWriter{},
-				readers: map[uint32]interceptor.RTPReader{}, rseq: map[uint32]uint16{}}
+				readers: map[uint32]interceptor.RTPReader{}, rseq: map[uint32]uint16{}, lastSeq: map[uint32]uint16{}}
 			closed := false
 			for _, op := range ops {
 				name, a := kv(op)
@@ -243,6 +258,12 @@ func lcRun(t *testing.T, ops []string, o *Out) {
 							s.rtcpSeen++
 							k := s.rtcpSeen
 							var pk []rtcp.Packet
+							if s.nackFor != nil {
+								pk = []rtcp.Packet{&rtcp.TransportLayerNack{SenderSSRC: 9, MediaSSRC: s.nackFor[0], Nacks: []rtcp.NackPair{{PacketID: uint16(s.nackFor[1])}}}}
+								s.nackFor = nil
+								raw, _ := rtcp.Marshal(pk)
+								return copy(b, raw), at, nil
+							}
 							switch k % 3 {
 							case 0:
 								pk = []rtcp.Packet{&rtcp.SenderReport{SSRC: uint32(1 + k%3), NTPTime: uint64(k) << 32}}
@@ -259,7 +280,23 @@ func lcRun(t *testing.T, ops []string, o *Out) {
 					ssrc := uint32(atoi(a["ssrc"]))
 					s.call(o, func() {
 						s.writers[ssrc] = s.ic.BindLocalStream(lcInfo(ssrc), interceptor.RTPWriterFunc(
-							func(h *rtp.Header, p []byte, _ interceptor.Attributes) (int, error) { return len(p), nil }))
+							func(h *rtp.Header, p []byte, _ interceptor.Attributes) (int, error) {
+								s.mu.Lock()
+								g := s.gate
+								if g != nil {
+									s.inGate++
+								}
+								s.mu.Unlock()
+								if g != nil {
+									<-g
+								}
+								s.mu.Lock()
+								if s.closedAt && !s.appWriting {
+									s.lateRTP++ // not the pass-through of an application write: sent by the interceptor itself
+								}
+								s.mu.Unlock()
+								return len(p), nil
+							}))
 					})
 				case "br":
 					ssrc := uint32(atoi(a["ssrc"]))
@@ -292,8 +329,15 @@ func lcRun(t *testing.T, ops []string, o *Out) {
 						continue
 					}
 					seq := uint16(atoi(a["seq"]))
+					s.lastSeq[ssrc] = seq
 					s.call(o, func() {
+						s.mu.Lock()
+						s.appWriting = true
+						s.mu.Unlock()
 						_, _ = w.Write(&rtp.Header{Version: 2, SSRC: ssrc, PayloadType: 96, SequenceNumber: seq, Timestamp: uint32(seq) * 90}, []byte{1, 2, 3}, nil)
+						s.mu.Lock()
+						s.appWriting = false
+						s.mu.Unlock()
 					})
 				case "r":
 					ssrc := uint32(atoi(a["ssrc"]))
@@ -315,7 +359,66 @@ func lcRun(t *testing.T, ops []string, o *Out) {
 					synctest.Wait()
 					s.flush(o, "emit")
 				case "close":
-					s.call(o, func() { _ = s.ic.Close() })
+					s.call(o, func() { _ = s.ic.Close(); s.mu.Lock(); s.closedAt = true; s.mu.Unlock() })
+					closed = true
+				case "nackgateclose":
+					// a retransmission is inside a slow downstream Write while Close is called: Close must wait for it
+					ssrc := uint32(atoi(a["ssrc"]))
+					if s.rtcpR == nil {
+						o.P("unbound")
+						continue
+					}
+					s.mu.Lock()
+					s.gate = make(chan struct{})
+					s.mu.Unlock()
+					s.nackFor = &[2]uint32{ssrc, uint32(s.lastSeq[ssrc])}
+					buf := make([]byte, 1500)
+					_, _, _ = s.rtcpR.Read(buf, interceptor.Attributes{})
+					synctest.Wait()
+					s.mu.Lock()
+					inflight := s.inGate
+					s.mu.Unlock()
+					closeDone := make(chan struct{})
+					go func() {
+						_ = s.ic.Close()
+						s.mu.Lock()
+						s.closedAt = true
+						s.mu.Unlock()
+						close(closeDone)
+					}()
+					synctest.Wait()
+					returnedEarly := false
+					select {
+					case <-closeDone:
+						returnedEarly = true
+					default:
+					}
+					s.mu.Lock()
+					g := s.gate
+					s.gate = nil
+					s.mu.Unlock()
+					close(g)
+					synctest.Wait()
+					<-closeDone
+					closed = true
+					o.P("inflight %d close-waited %v", inflight, !(returnedEarly && inflight > 0))
+				case "nackclose":
+					// an RTCP read carrying a NACK for the last packet written on ssrc, then Close straight away from the
+					// same goroutine: anything the interceptor still sends afterwards is a write after Close
+					ssrc := uint32(atoi(a["ssrc"]))
+					if s.rtcpR == nil {
+						o.P("unbound")
+						continue
+					}
+					s.nackFor = &[2]uint32{ssrc, uint32(s.lastSeq[ssrc])}
+					s.call(o, func() {
+						buf := make([]byte, 1500)
+						_, _, _ = s.rtcpR.Read(buf, interceptor.Attributes{})
+						_ = s.ic.Close()
+						s.mu.Lock()
+						s.closedAt = true
+						s.mu.Unlock()
+					})
 					closed = true
 				case "end":
 				default:
@@ -324,11 +427,12 @@ func lcRun(t *testing.T, ops []string, o *Out) {
 			}
 			s.flush(o, "tail")
 			if !closed && s.ic != nil {
-				s.call(o, func() { _ = s.ic.Close() })
+				s.call(o, func() { _ = s.ic.Close(); s.mu.Lock(); s.closedAt = true; s.mu.Unlock() })
 			}
 			time.Sleep(3 * lcInterval)
 			synctest.Wait()
 			s.flush(o, "afterclose")
+			o.P("late-rtp %d", s.lateRTP)
 			o.P("blocked %d", s.blocked)
 		})
 	}()
@@ -380,6 +484,15 @@ func init() {
 				ops = append(ops, "adv ms=15", "ur ssrc=1", "ul ssrc=1", "adv ms=25", "br ssrc=1", "bl ssrc=1")
 				traffic([]int{1})
 				ops = append(ops, "adv ms=25")
+			case 4: // a NACK is being answered while Close runs
+				ops = append(ops, "bindw", "bindr", "bl ssrc=1", "bl ssrc=2")
+				traffic2 := []string{"w ssrc=1 seq=7", "w ssrc=2 seq=8", "w ssrc=1 seq=9"}
+				ops = append(ops, traffic2[:r.Range(1, 3)]...)
+				if r.Bool() {
+					ops = append(ops, fmt.Sprintf("nackclose ssrc=%d", r.Range(1, 2)), "adv ms=25")
+				} else {
+					ops = append(ops, fmt.Sprintf("nackgateclose ssrc=%d", r.Range(1, 2)), "adv ms=25")
+				}
 			default: // random
 				alphabet := []string{"bindw", "bindr", "bl ssrc=1", "br ssrc=1", "bl ssrc=2", "br ssrc=2", "bl ssrc=3", "br ssrc=3",
 					"ul ssrc=1", "ur ssrc=1", "ul ssrc=2", "ur ssrc=2", "w ssrc=1 seq=%d", "w ssrc=2 seq=%d", "r ssrc=1", "r ssrc=2", "r ssrc=3",
